@@ -88,7 +88,8 @@ func fields(e event.Event, keys ...string) []hx.B {
 	return out
 }
 
-func (r *recorder) Send(e event.Event) {
+// toEv projects an event to (kind, decoded fields)
+func toEv(e event.Event) Ev {
 	cat, ty := e.Get("category"), e.Get("type")
 	var ev *Ev
 	switch cat {
@@ -130,8 +131,13 @@ func (r *recorder) Send(e event.Event) {
 	if ev == nil {
 		ev = &Ev{98, []hx.B{hx.B(cat), hx.B(ty)}}
 	}
+	return *ev
+}
+
+func (r *recorder) Send(e event.Event) {
+	ev := toEv(e)
 	r.mu.Lock()
-	r.evs = append(r.evs, *ev)
+	r.evs = append(r.evs, ev)
 	r.mu.Unlock()
 }
 
@@ -465,17 +471,10 @@ func main() {
 	}
 
 	dist := map[string]int{}
-	var tcp, udp []hx.Case
+	var tcp, udp, sock []hx.Case
 	sdefs := &defs{names: map[string]string{}, pfx: "S"}
 	odefs := &defs{names: map[string]string{}, pfx: "O"}
-	for _, in := range ins {
-		ob, crash := runOne(in)
-		dist["svc:"+in.Svc]++
-		dist["mode:"+in.Mode]++
-		dist[fmt.Sprintf("events:%d", minInt(len(ob.Events), 6))]++
-		if ob.Code == 2 {
-			dist["handle-panicked"]++
-		}
+	mkCase := func(id int, in Input, ob Obs) string {
 		sname := sdefs.name(string(in.Stream), coqPacked(in.Stream), "bytes")
 		ev := coqEvents(ob.Events)
 		oname := odefs.name(ev, ev, "list event")
@@ -483,31 +482,62 @@ func main() {
 		for _, n := range in.Cuts {
 			cuts = append(cuts, hx.CoqN(uint64(n)))
 		}
-		mk := func(id int) string {
-			return fmt.Sprintf("mkCase %s %s %s %s %s %s", hx.CoqN(uint64(id)), hx.CoqN(uint64(svcCode[in.Svc])), sname, hx.CoqList(cuts, "N"), oname, hx.CoqN(uint64(ob.Code)))
+		return fmt.Sprintf("mkCase %s %s %s %s %s %s", hx.CoqN(uint64(id)), hx.CoqN(uint64(svcCode[in.Svc])), sname, hx.CoqList(cuts, "N"), oname, hx.CoqN(uint64(ob.Code)))
+	}
+	var direct, viaSocket []Input
+	for _, in := range ins {
+		if in.Mode == "socket-burst" {
+			viaSocket = append(viaSocket, in)
+		} else {
+			direct = append(direct, in)
+		}
+	}
+	for _, in := range direct {
+		ob, crash := runOne(in)
+		dist["svc:"+in.Svc]++
+		dist["mode:"+in.Mode]++
+		dist[fmt.Sprintf("events:%d", minInt(len(ob.Events), 6))]++
+		if ob.Code == 2 {
+			dist["handle-panicked"]++
 		}
 		if isUDP(in.Svc) {
 			id := len(udp)
-			udp = append(udp, hx.Case{ID: id, Kind: in.Svc, Input: in, Obs: ob, Crash: crash, Coq: mk(id)})
+			udp = append(udp, hx.Case{ID: id, Kind: in.Svc, Input: in, Obs: ob, Crash: crash, Coq: mkCase(id, in, ob)})
 		} else {
 			id := len(tcp)
-			tcp = append(tcp, hx.Case{ID: id, Kind: in.Svc, Input: in, Obs: ob, Crash: crash, Coq: mk(id)})
+			tcp = append(tcp, hx.Case{ID: id, Kind: in.Svc, Input: in, Obs: ob, Crash: crash, Coq: mkCase(id, in, ob)})
 		}
+	}
+	// LAST: the real server with the real socket listener on loopback, bursts of datagrams
+	sdist := map[string]int{}
+	rounds := 0
+	if o.Only == "" {
+		rounds = 3
+		if o.Tier != "quick" {
+			rounds = 12
+		}
+	} else if len(viaSocket) > 0 {
+		rounds = 2 // replay: the case's datagram inside fresh bursts
+	}
+	for k := 0; k < rounds; k++ {
+		for _, sr := range sockRound(r, o.Out, r.Range(16, 32), viaSocket) {
+			id := len(sock)
+			sdist["svc:"+sr.in.Svc]++
+			sdist[fmt.Sprintf("events:%d", minInt(len(sr.ob.Events), 3))]++
+			sock = append(sock, hx.Case{ID: id, Kind: sr.in.Svc, Input: sr.in, Obs: sr.ob, Coq: mkCase(id, sr.in, sr.ob)})
+		}
+		sdist["rounds"]++
 	}
 	header := "From Coq Require Import Uint63.\nFrom HT Require Import Common.Bytes Common.Pack C04.Model C04.Check.\n" +
 		strings.Join(sdefs.lines, "\n") + "\n" + strings.Join(odefs.lines, "\n")
-	pick := func(prefix string) map[string]int {
-		out := map[string]int{}
-		for k, v := range dist {
-			out[k] = v
-		}
-		return out
-	}
 	if len(tcp) > 0 || o.Only == "" {
-		hx.Write(o, "C04", "tcp", header, "case", tcp, pick("tcp"), nil, 150)
+		hx.Write(o, "C04", "tcp", header, "case", tcp, dist, nil, 150)
 	}
 	if len(udp) > 0 || o.Only == "" {
 		hx.Write(o, "C04", "udp", header, "case", udp, map[string]int{"datagrams": len(udp)}, nil, 150)
+	}
+	if len(sock) > 0 || o.Only == "" {
+		hx.Write(o, "C04", "sock", header, "case", sock, sdist, nil, 150)
 	}
 }
 
